@@ -11,7 +11,7 @@ use crate::refmodel::val::Val;
 use crate::rng::Rng;
 use edp_client::{Connection, ConnectionConfig, DistributionFlags};
 use serde_json::json;
-use std::time::Duration;
+use std::time::{Duration, Instant};
 
 #[derive(Clone, Copy, Debug, PartialEq, Eq)]
 pub enum Mode {
@@ -294,12 +294,169 @@ fn frame(body: &[u8]) -> Vec<u8> {
     v
 }
 
+#[derive(Clone, Copy, Debug, PartialEq)]
+enum Step {
+    Msg,
+    MsgInPieces,
+    Tick,
+    LongSilence,
+    ShortSilence,
+}
+
+/// The node's receive loop (`receive_message_from_read_half`, timeout given by the caller) against a peer that
+/// conforms but is slow: ticks, silences longer than the timeout between frames (an idle link is not an error),
+/// and frames that arrive in pieces with pauses well below the timeout. Every call must return the next message.
+async fn read_half_timeline(ctx: &Ctx, seed: u64, id: usize) {
+    use tokio::io::AsyncWriteExt;
+    let mut rng = Rng::new(seed);
+    let timeout = Duration::from_millis(400);
+    let pause = Duration::from_millis(50);
+    let long = Duration::from_millis(900);
+    let mut steps: Vec<Step> = vec![Step::Msg];
+    let mut longs = 0;
+    for _ in 0..6 + rng.below(6) {
+        let st = *rng.pick(&[Step::Msg, Step::MsgInPieces, Step::MsgInPieces, Step::Tick, Step::Tick, Step::LongSilence, Step::ShortSilence]);
+        if st == Step::LongSilence {
+            if longs >= 3 {
+                continue;
+            }
+            longs += 1;
+        }
+        steps.push(st);
+    }
+    steps.push(Step::MsgInPieces);
+    let listener = match tokio::net::TcpListener::bind("127.0.0.1:0").await {
+        Ok(l) => l,
+        Err(e) => {
+            ctx.inconclusive(&format!("cannot bind loopback: {}", e));
+            return;
+        }
+    };
+    let addr = listener.local_addr().unwrap();
+    let script = steps.clone();
+    let slowest = std::sync::Arc::new(std::sync::Mutex::new(Duration::ZERO));
+    let slowest2 = slowest.clone();
+    let peer = tokio::spawn(async move {
+        let (mut sock, _) = listener.accept().await.unwrap();
+        let _ = sock.set_nodelay(true);
+        let mut n = 0u32;
+        for st in script {
+            match st {
+                Step::Tick => {
+                    let _ = sock.write_all(&[0, 0, 0, 0]).await;
+                }
+                Step::LongSilence => tokio::time::sleep(long).await,
+                Step::ShortSilence => tokio::time::sleep(pause).await,
+                Step::Msg | Step::MsgInPieces => {
+                    n += 1;
+                    let mut body = vec![112u8];
+                    body.extend(ref_encode_canonical(&control_of_kind(1, id as u32 * 100 + n).0).unwrap());
+                    body.extend(ref_encode_canonical(&Val::Tuple(vec![Val::atom("n"), Val::int(n as i128), Val::binary(&vec![7u8; 300])])).unwrap());
+                    let f = frame(&body);
+                    if st == Step::Msg {
+                        let _ = sock.write_all(&f).await;
+                    } else {
+                        // length prefix split, then the body in two parts
+                        for (a, b) in [(0usize, 2usize), (2, 4), (4, 4 + body.len() / 2), (4 + body.len() / 2, f.len())] {
+                            let t0 = Instant::now();
+                            let _ = sock.write_all(&f[a..b]).await;
+                            let _ = sock.flush().await;
+                            if b < f.len() {
+                                tokio::time::sleep(pause).await;
+                            }
+                            let d = t0.elapsed();
+                            let mut s = slowest2.lock().unwrap();
+                            if d > *s {
+                                *s = d;
+                            }
+                        }
+                    }
+                }
+            }
+            let _ = sock.flush().await;
+        }
+        tokio::time::sleep(Duration::from_millis(300)).await;
+        n
+    });
+    let Ok(client) = tokio::net::TcpStream::connect(addr).await else {
+        ctx.inconclusive("cannot connect to loopback peer");
+        return;
+    };
+    let (mut rh, _wh) = client.into_split();
+    let expected = steps.iter().filter(|s| matches!(s, Step::Msg | Step::MsgInPieces)).count();
+    let mut verdict: Option<(String, String)> = None;
+    let mut got = 0usize;
+    while got < expected {
+        let r = tokio::time::timeout(Duration::from_secs(20), edp_client::Connection::receive_message_from_read_half(&mut rh, timeout)).await;
+        ctx.eval(1);
+        match r {
+            Ok(Ok((_c, Some(p)))) => {
+                got += 1;
+                let ok = matches!(val_of(&p), Val::Tuple(t) if t.get(1) == Some(&Val::int(got as i128)));
+                if !ok {
+                    verdict = Some(("wrong-message".into(), format!("message {} expected, got {}", got, val_of(&p).show())));
+                    break;
+                }
+            }
+            Ok(Ok((c, None))) => {
+                verdict = Some(("wrong-message".into(), format!("a message without payload was returned: {:?}", c)));
+                break;
+            }
+            Ok(Err(e)) => {
+                // which steps preceded message number got+1 ?
+                let mut seen = 0usize;
+                let mut before: Vec<String> = Vec::new();
+                for st in &steps {
+                    if matches!(st, Step::Msg | Step::MsgInPieces) {
+                        if seen == got {
+                            before.push(format!("{:?}", st));
+                            break;
+                        }
+                        seen += 1;
+                        before.clear();
+                    } else if seen == got {
+                        before.push(format!("{:?}", st));
+                    }
+                }
+                before.dedup();
+                verdict = Some((format!("error:{}", before.join("+")), e.to_string()));
+                break;
+            }
+            Err(_) => {
+                verdict = Some(("stall".into(), "no result within 20 s".into()));
+                break;
+            }
+        }
+    }
+    let _ = peer.await;
+    let slow = *slowest.lock().unwrap();
+    ctx.class(&format!("read-half-timeline/{}", steps.iter().map(|s| match s { Step::Msg => 'M', Step::MsgInPieces => 'P', Step::Tick => 't', Step::LongSilence => 'S', Step::ShortSilence => 's' }).collect::<String>()));
+    if let Some((cause, detail)) = verdict {
+        if slow > timeout / 2 {
+            ctx.count("read_half_timelines_not_judged_machine_too_slow", 1);
+            return;
+        }
+        ctx.viol(
+            &format!("C06:read-half:{}", cause),
+            "the node's receive loop did not return the next message of a conforming (slow, ticking) peer",
+            json!({"timeline": steps.iter().map(|s| format!("{:?}", s)).collect::<Vec<_>>(), "messages_returned_before": got, "detail": detail, "timeout_ms": timeout.as_millis() as u64, "slowest_piece_ms": slow.as_millis() as u64}),
+        );
+    } else {
+        ctx.count("read_half_timelines_completed", 1);
+    }
+}
+
 pub fn run(ctx: &Ctx) {
-    ctx.rule("cases = peer histories after a real handshake under three negotiated flag sets (pass-through only; + DIST_HDR_ATOM_CACHE; + FRAGMENTS): every control-message kind, payloads from a few bytes to 70 kB, distribution headers from the atom-cache sender model, legal fragmentations into 1..5 fragments, ticks, and junk frames (random bytes, truncated terms, wrong markers, non-tuples, bad payloads, fragment headers with inconsistent counts) at random positions, TCP writes sliced randomly; the sequence of values returned by Connection::receive_message is compared with the sequence of valid messages sent; evaluations = messages and junk frames judged; distinct = distinct (flag set, wire form, control kind, junk kind) combinations");
+    ctx.rule("cases = peer histories after a real handshake under three negotiated flag sets (pass-through only; + DIST_HDR_ATOM_CACHE; + FRAGMENTS): every control-message kind, payloads from a few bytes to 70 kB, distribution headers from the atom-cache sender model, legal fragmentations into 1..5 fragments, ticks, and junk frames (random bytes, truncated terms, wrong markers, non-tuples, bad payloads, fragment headers with inconsistent counts) at random positions, TCP writes sliced randomly; the sequence of values returned by Connection::receive_message is compared with the sequence of valid messages sent; plus slow-peer timelines for Connection::receive_message_from_read_half (ticks, silences longer than the caller's timeout between frames, frames arriving in pieces with short pauses): every call must return the next message; evaluations = messages and junk frames judged; distinct = distinct (flag set, wire form, control kind, junk kind) combinations");
     ctx.assume("a history ends with a pass-through sentinel message; a receive that fails with timeout/EOF ends the history");
     let rt = tokio::runtime::Builder::new_current_thread().enable_all().build().expect("runtime");
     let mut rng = Rng::derive(ctx.seed, 6, 1);
     rt.block_on(async {
+        // slow-peer timelines for the node's receive loop run concurrently with the histories below
+        let timelines: Vec<std::pin::Pin<Box<dyn std::future::Future<Output = ()> + '_>>> =
+            (0..ctx.pick(10usize, 80usize)).map(|i| Box::pin(read_half_timeline(ctx, ctx.seed.wrapping_mul(1000).wrapping_add(i as u64 + 6), i)) as std::pin::Pin<Box<dyn std::future::Future<Output = ()> + '_>>).collect();
+        let timelines = super::common::join_all(timelines);
+        let main_part = async {
         let epmd = net::start_epmd().await;
         let histories = ctx.pick(240usize, 9000usize);
         for h in 0..histories {
@@ -444,5 +601,7 @@ pub fn run(ctx: &Ctx) {
                 ctx.sample(json!({"mode": format!("{:?}", mode), "frames": layout, "returned_ok": oks.len(), "errors": errs, "stream_head": hex_cap(&stream, 32)}));
             }
         }
+        };
+        tokio::join!(timelines, main_part);
     });
 }
